@@ -55,7 +55,7 @@ pub fn generic_payoffs(t: &mut Tree, rng: &mut Rng) {
 pub fn corpus(seed: u64, n: u64) -> Vec<(String, Tree)> {
     let mut games: Vec<(String, Tree)> = zoo::all()
         .into_iter()
-        .filter(|(name, _)| ["kuhn", "shared16", "shared8", "chain8", "rare", "dominated"].contains(&name.as_str()))
+        .filter(|(name, _)| ["kuhn", "shared16", "shared8", "chain8", "rare", "dominated", "coins"].contains(&name.as_str()))
         .collect();
     games.push(("contended5".to_string(), zoo::contended(5)));
     let mut rng = Rng::new(seed ^ 0x9a7);
@@ -127,7 +127,7 @@ fn traced(t: &Tree, meth: &str, preset: &str, k: usize, iters: u64, seed: u64, y
     let t2 = t.clone();
     let (meth, preset) = (meth.to_string(), preset.to_string());
     util::catch(move || {
-        let game = tree::build(&t2).map_err(|e| format!("{e:?}"))?;
+        let game = tree::build(&cfr::unlabelled(&t2)).map_err(|e| format!("{e:?}"))?;
         let dump = game.verif_dump();
         verif::reset();
         verif::set_draw_seed(Some(seed));
@@ -164,7 +164,8 @@ fn traced(t: &Tree, meth: &str, preset: &str, k: usize, iters: u64, seed: u64, y
                 }
             }
         }
-        let gev = json!({"e": "game", "method": meth, "k": k, "target": 3 * k, "nodes": n, "kids": kids, "kind": kind, "pl": pl, "info": info});
+        let gev = json!({"e": "game", "method": meth, "k": k, "target": 3 * k, "nodes": n, "kids": kids, "kind": kind, "pl": pl, "info": info,
+            "decl": cfr::declared(&t2, &dump)});
         // cut the log into passes
         let mut passes = Vec::new();
         let mut draws: Vec<Value> = Vec::new();
@@ -234,7 +235,7 @@ fn thresholded(t: &Tree, meth: &str, preset: &str, k: usize, iters: u64, thr: f6
     let t2 = t.clone();
     let (meth, preset) = (meth.to_string(), preset.to_string());
     util::catch(move || {
-        let game = tree::build(&t2).map_err(|e| format!("{e:?}"))?;
+        let game = tree::build(&cfr::unlabelled(&t2)).map_err(|e| format!("{e:?}"))?;
         verif::reset();
         verif::set_draw_seed(Some(seed));
         verif::set_record(true, false);
